@@ -185,17 +185,43 @@ def phase2():
         drop(wt)
 
 def report():
-    p1 = [json.loads(l) for l in open(os.path.join(OUT, "phase1.jsonl"))]
     from collections import Counter
-    print("phase 1:", dict(Counter(m["phase1"] for m in p1)))
+    p1 = [json.loads(l) for l in open(os.path.join(OUT, "phase1.jsonl"))]
     p2p = os.path.join(OUT, "phase2.jsonl")
-    if os.path.exists(p2p):
-        p2 = [json.loads(l) for l in open(p2p)]
-        print("phase 2:", dict(Counter(m["verdict"] for m in p2)))
-        print("detected by:", dict(Counter(m["by"] for m in p2 if m["by"])))
-        for m in p2:
-            if m["verdict"] != "DETECTED":
-                print(m["verdict"], m["file"], "line", m["line"], m["func"], "|", m["desc"])
+    p2 = [json.loads(l) for l in open(p2p)] if os.path.exists(p2p) else []
+    tri = json.load(open(os.path.join(OUT, "triage.json")))
+    def classify(m):
+        for lo, hi, cls, why in tri.get(m["file"], []):
+            if lo <= m["line"] <= hi:
+                return cls, why
+        return "UNTRIAGED", ""
+    lines = ["# Mutation sweep", "",
+             "Generated by `tools/mutsweep.py report` from phase1.jsonl / phase2.jsonl / triage.json.", "",
+             "| stage | count |", "|---|---|"]
+    c1 = Counter(m["phase1"] for m in p1)
+    lines.append("| mutants generated | %d |" % len(p1))
+    for k in ("does-not-build", "killed-by-suite", "survives-suite"):
+        lines.append("| %s | %d |" % (k, c1.get(k, 0)))
+    surv = [m for m in p1 if m["phase1"] == "survives-suite"]
+    skipped = [m for m in surv if logging_only(m)]
+    lines.append("| of the suite survivors: on a log/error-text line, not run | %d |" % len(skipped))
+    c2 = Counter(m["verdict"] for m in p2)
+    lines.append("| run against the checks | %d |" % len(p2))
+    lines.append("| detected by a check | %d |" % c2.get("DETECTED", 0))
+    notdet = [m for m in p2 if m["verdict"] != "DETECTED"]
+    cls = Counter(classify(m)[0] for m in notdet)
+    for k, v in sorted(cls.items()):
+        lines.append("| not detected at sweep time: %s | %d |" % (k, v))
+    lines += ["", "Detected, by check: " + ", ".join("%s %d" % kv for kv in sorted(Counter(m["by"] for m in p2 if m["by"]).items())), ""]
+    lines += ["## Mutants no check reported at sweep time", "", "| file | line | function | mutation | class | why |", "|---|---|---|---|---|---|"]
+    for m in sorted(notdet, key=lambda m: (m["file"], m["line"])):
+        c, why = classify(m)
+        lines.append("| %s | %d | %s | %s | %s | %s |" % (m["file"], m["line"], m["func"], m["desc"].replace("|", "\\|")[:70], c, why))
+    open(os.path.join(OUT, "SUMMARY.md"), "w").write("\n".join(lines) + "\n")
+    print("\n".join(lines[:20]))
+    for m in notdet:
+        if classify(m)[0] == "UNTRIAGED":
+            print("UNTRIAGED", m["verdict"], m["file"], "line", m["line"], m["func"], "|", m["desc"])
 
 if __name__ == "__main__":
     {"phase1": phase1, "phase2": phase2, "report": report}[sys.argv[1]]()
